@@ -872,3 +872,4 @@ META = {
 META['explanation'] += ' ' + 'Further: the output point print_guess reaches its write on every non-debug path; OMEN necessary conditions shared from C10 (exact last transition, cursor advance, inclusive level-cursor domain, prune discipline); loader bundle; exact-float discipline.'
 
 META['explanation'] += ' ' + 'Round 13: the scan for the first populated OMEN level starts at level 0.'
+META['explanation'] += ' ' + 'Round 14: no jump between a write and its count.'
